@@ -489,6 +489,29 @@ def make_namespaces(oblig):
     def a_asarray(x, dtype=None):
         return SArr(shape_of(x), dtype.kind if isinstance(dtype, DT) else kind_of(x)) if isinstance(x, SArr) else x
 
+    def a_parse_einsum_input(*operands):
+        """NumPy's own parser on dummy arrays of the same rank (it only looks at ranks to expand the ellipsis)"""
+        import numpy as _n
+        from numpy._core.einsumfunc import _parse_einsum_input
+        dummies = [(_n.zeros((1,) * len(shape_of(v))) if isinstance(v, SArr) else v) for v in operands]
+        ins, outs, _ = _parse_einsum_input(dummies)
+        return ins, outs, [v for v in operands if isinstance(v, SArr)]
+
+    def a_einsum(*operands, **kw):
+        ins, outs, ops = a_parse_einsum_input(*operands)
+        dims = {}
+        for sub, op_ in zip(ins.split(","), ops):
+            sh = shape_of(op_)
+            if len(sub) != len(sh):
+                raise ValueError("einsum: subscripts do not match operand rank")
+            for ch, d in zip(sub, sh):
+                if ch in dims:
+                    dims[ch] = bdim(dims[ch], d)   # repeated label: equal or broadcast (size 1) - NumPy's acceptance condition
+                else:
+                    dims[ch] = d
+        return SArr(tuple(dims[ch] for ch in outs), promote(*[kind_of(o_) for o_ in ops]))
+
+    impls.update(einsum=a_einsum, parse_einsum_input=a_parse_einsum_input)
     impls.update(tile=a_tile, zeros_like=same, ones_like=same, argsort=a_argsort, tensordot=a_tensordot, dot=a_dot, inner=a_inner, outer=a_outer, asarray=a_asarray)
     impls.update(transpose=a_transpose, swapaxes=a_swapaxes, moveaxis=a_moveaxis, rollaxis=a_rollaxis, ravel=a_ravel, squeeze=a_squeeze, concatenate_args=a_concat_args,
                  split=a_split, pad=a_pad, rot90=a_rot90, matmul=a_matmul, atleast_1d=a_atleast(1), atleast_2d=a_atleast(2), atleast_3d=a_atleast(3),
